@@ -20,7 +20,7 @@ from pyvc.vc import Check
 from pyvc import replay
 from spec import c11, rzil, ir
 from . import irkit, tkit, emit
-from .common import T8, TX, tname, conc_vt, run_mutants
+from .common import WORKERS, T8, TX, tname, conc_vt, run_mutants
 
 PROP = "C03"
 M_T = tkit.M_T
@@ -752,7 +752,7 @@ def run(check: Check):
                  "emission contract, discharged per class in this file / C02 / C10)")
     check.assume("operand kinds enumerate every IR class; BooleanOp children are not WF on this tree (no BOOL flag) and are "
                  "excluded from callback preconditions - the defect is reported at BooleanOp's constructor (C02/C10)")
-    check.run_parallel("contracts.c03", "gen_task", tasks_for(check.tier), workers=int(os.environ.get("VERIF_WORKERS", "8")))
+    check.run_parallel("contracts.c03", "gen_task", tasks_for(check.tier), workers=WORKERS)
     run_mutants(check, MUTANTS, "contracts.c03", "generate_reduced")
     return check.finish(
         level="proof",
